@@ -452,6 +452,40 @@ func TestC18(t *testing.T) {
 		})
 	}
 	// the import root itself being a file, a symlink, an empty directory
+	// a chain of nested directories far deeper than any generated tree
+	for _, depth := range []int{r.Pick(80, 400), r.Pick(150, 900)} {
+		depth := depth
+		r.Case(fmt.Sprintf("deep-chain/%d", depth), map[string]any{"depth": depth}, func(c *mon.Case) {
+			dir := tmpRoot(c)
+			defer os.RemoveAll(dir)
+			root := filepath.Join(dir, "r")
+			p := root
+			for i := 0; i < depth; i++ {
+				p = filepath.Join(p, []string{"d", "e", "x y"}[i%3])
+			}
+			if err := os.MkdirAll(p, 0o755); err != nil {
+				c.Harness("mkdir chain of %d: %v", depth, err)
+				return
+			}
+			os.WriteFile(filepath.Join(p, "bottom.txt"), gen.Content(c.Rand(), "rand", 300), 0o644)
+			os.Symlink("../../up", filepath.Join(p, "lnk"))
+			os.WriteFile(filepath.Join(root, "top.txt"), []byte("top"), 0o644)
+			st := store.New()
+			var l ipld.Link
+			var err error
+			if !c.Guard("BuildUnixFSRecursive", func() { l, _, err = builder.BuildUnixFSRecursive(root, st.LinkSystem(false)) }) {
+				return
+			}
+			if err != nil {
+				c.Violation("C18|import-error", "chain of %d nested directories: %v", depth, err)
+				return
+			}
+			c.Count("trees", 1)
+			c.Max("max_tree_depth", int64(depth))
+			compareFS(c, st, st.LinkSystem(false), linkCid(l), root)
+			c.Sig(fmt.Sprintf("deep-chain|%s", sizeClass(depth)), true)
+		})
+	}
 	r.Case("roots", map[string]any{"roots": "file, empty file, symlink, dangling symlink, empty dir, fifo"}, func(c *mon.Case) {
 		dir := tmpRoot(c)
 		defer os.RemoveAll(dir)
